@@ -41,6 +41,37 @@ struct SuperficialLossInfo {
         HashMap<Affiliate, GreaterEqualZeroDecimal>,
 }
 
+// A product of split ratios, used to express share counts of Txs before or
+// after a sale in terms of the split "period" of the sale.
+// Kept as a fraction and applied by multiplying before dividing, so that the
+// result is exact whenever it is representable (eg. 1 share after a 1-for-3
+// split is exactly 3 sale-period shares, rather than 1 / 0.333... = 3.000...3).
+#[derive(Clone, Copy)]
+struct SplitAdjustment {
+    numerator: PosDecimal,
+    denominator: PosDecimal,
+}
+
+impl SplitAdjustment {
+    fn one() -> Self {
+        SplitAdjustment {
+            numerator: PosDecimal::one(),
+            denominator: PosDecimal::one(),
+        }
+    }
+
+    fn times(&self, numerator: PosDecimal, denominator: PosDecimal) -> Self {
+        SplitAdjustment {
+            numerator: self.numerator * numerator,
+            denominator: self.denominator * denominator,
+        }
+    }
+
+    fn apply(&self, shares: GreaterEqualZeroDecimal) -> GreaterEqualZeroDecimal {
+        (shares * self.numerator.into()).div(self.denominator)
+    }
+}
+
 impl SuperficialLossInfo {
     // Note: it is possible for this to legally return zero, since you could
     // have only shares remaining in non-buying affiliates.
@@ -135,7 +166,7 @@ fn get_superficial_loss_info(
         };
 
     // This will need to be per affiliate until stock split TXs are global
-    let mut af_split_adjustments = HashMap::<&Affiliate, PosDecimal>::new();
+    let mut af_split_adjustments = HashMap::<&Affiliate, SplitAdjustment>::new();
 
     let mut all_aff_spladj_shares_at_end_of_period =
         all_affiliates_share_balance_after_sell;
@@ -185,17 +216,17 @@ fn get_superficial_loss_info(
             break;
         }
         let after_tx_affil = &after_tx.affiliate;
-        let split_adjustment: PosDecimal = af_split_adjustments
+        let split_adjustment: SplitAdjustment = af_split_adjustments
             .get(after_tx_affil)
             .map(|v| *v)
-            .unwrap_or(PosDecimal::one());
+            .unwrap_or(SplitAdjustment::one());
 
         // Within the 30 day window after
         match &after_tx.action_specifics {
             TxActionSpecifics::Buy(buy) => {
                 let after_tx_buy_shares = GreaterEqualZeroDecimal::from(buy.shares);
                 let after_tx_buy_spladj_shares =
-                    after_tx_buy_shares * split_adjustment.into();
+                    split_adjustment.apply(after_tx_buy_shares);
 
                 all_aff_spladj_shares_at_end_of_period += after_tx_buy_spladj_shares;
                 let old_shares_eop = active_affiliate_spladj_shares_at_eop
@@ -215,7 +246,7 @@ fn get_superficial_loss_info(
                 let after_tx_sell_shares =
                     GreaterEqualZeroDecimal::from(sell.shares);
                 let after_tx_spladj_sell_shares =
-                    after_tx_sell_shares * split_adjustment.into();
+                    split_adjustment.apply(after_tx_sell_shares);
 
                 all_aff_spladj_shares_at_end_of_period = GreaterEqualZeroDecimal::try_from(
                     *all_aff_spladj_shares_at_end_of_period - *after_tx_spladj_sell_shares
@@ -241,8 +272,8 @@ fn get_superficial_loss_info(
             }
             TxActionSpecifics::Split(split) => {
                 // Adjustment goes backwards in time for txs after the sale.
-                let new_split_adjustment =
-                    split_adjustment / split.ratio.pre_to_post_factor();
+                let new_split_adjustment = split_adjustment
+                    .times(split.ratio.pre_split, split.ratio.post_split);
                 af_split_adjustments.insert(after_tx_affil, new_split_adjustment);
             }
             // These don't change the share quantity, so they can be ignored
@@ -261,7 +292,7 @@ fn get_superficial_loss_info(
         return Ok(MaybeSuperficialLossInfo::NotSuperficial());
     };
 
-    let mut af_split_adjustments = HashMap::<&Affiliate, PosDecimal>::new();
+    let mut af_split_adjustments = HashMap::<&Affiliate, SplitAdjustment>::new();
 
     // Start just before the sell tx and work backwards
     for i in (0..idx).rev() {
@@ -271,17 +302,16 @@ fn get_superficial_loss_info(
         }
         let before_tx_affil = &before_tx.affiliate;
 
-        let split_adjustment: PosDecimal = af_split_adjustments
+        let split_adjustment: SplitAdjustment = af_split_adjustments
             .get(before_tx_affil)
             .map(|v| *v)
-            .unwrap_or(PosDecimal::one());
+            .unwrap_or(SplitAdjustment::one());
 
         // Within the 30 day window before
         match &before_tx.action_specifics {
             TxActionSpecifics::Buy(buy) => {
-                let spladj_shares = buy.shares * split_adjustment;
                 total_aquired_spladj_shares_in_period +=
-                    GreaterEqualZeroDecimal::from(spladj_shares);
+                    split_adjustment.apply(buy.shares.into());
                 buying_affiliates.insert(before_tx_affil.clone());
 
                 if !active_affiliate_spladj_shares_at_eop
@@ -297,8 +327,8 @@ fn get_superficial_loss_info(
             }
             TxActionSpecifics::Split(split) => {
                 // Adjustment goes forwards in time for txs before the sale.
-                let new_split_adjustment =
-                    split_adjustment * split.ratio.pre_to_post_factor();
+                let new_split_adjustment = split_adjustment
+                    .times(split.ratio.post_split, split.ratio.pre_split);
                 af_split_adjustments.insert(before_tx_affil, new_split_adjustment);
             }
             // ignored
